@@ -263,6 +263,7 @@ def main():
     ap.add_argument("--ids", default="")
     ap.add_argument("--kinds", default="")
     ap.add_argument("--lines", default="", help="file-relative line range a-b to restrict to (single file)")
+    ap.add_argument("--wbase", type=int, default=0, help="first worker index (use distinct ranges for concurrent sweeps)")
     a = ap.parse_args()
     files = [f for f in a.files.split(",") if f] or list(FILE_CHECKS)
     rng = random.Random(a.seed)
@@ -314,7 +315,7 @@ def main():
                 print(f"[{r['status']}] {r['file'].split('/')[-1]}:{r['line']} {r['kind']} {r['desc'][:90]} {cs}", flush=True)
 
     with ThreadPoolExecutor(a.workers) as ex:
-        list(ex.map(loop, range(a.workers)))
+        list(ex.map(loop, range(a.wbase, a.wbase + a.workers)))
 
 
 if __name__ == "__main__":
